@@ -189,7 +189,10 @@ Proof. unfold high_or, tq_high. destruct c; intros H; inversion H; auto. Qed.
 Lemma ipver_some obs sig d : distance_ip_version obs sig = Some d -> d = 0.
 Proof. unfold distance_ip_version, tq_high. destruct sig, obs; cbn; congruence. Qed.
 Lemma ttl_some obs sig d : distance_ttl obs sig = Some d -> d = 0 \/ d = 2.
-Proof. unfold distance_ttl. destruct obs, sig; try discriminate; apply high_or_le. Qed.
+Proof.
+  unfold distance_ttl. destruct obs, sig; try discriminate; try apply high_or_le;
+    (destruct (_ <=? _); [unfold tq_high; intros H; inversion H; auto | discriminate]).
+Qed.
 Lemma div_exact w m k : 0 < m -> ((k =? w / m) && (w mod m =? 0)) = (w =? k * m).
 Proof.
   intros Hm. destruct (w =? k * m) eqn:E.
@@ -269,18 +272,15 @@ Proof.
 Qed.
 
 (* ---- instance => every component is zero ---- *)
-Lemma ttl_instance_zero st ot :
-  ttl_u8 st -> ttl_inst st ot -> (negb (ttl_eqb ot st) && match st with TtlValue _ => false | _ => true end) = false ->
-  distance_ttl ot st = Some 0.
+Lemma ttl_instance_zero st ot : ttl_u8 st -> ttl_inst st ot -> distance_ttl ot st = Some 0.
 Proof.
-  intros Hu [->|(t & d & -> & Hd & Hs)] Hk.
+  intros Hu [->|(t & d & -> & Hd & Hs)].
   - destruct st; cbn; unfold high_or; rewrite ?N.eqb_refl; reflexivity.
-  - destruct st as [i|t' d'|i|i].
-    + cbn in *. unfold high_or, sat_add8. replace (N.min 255 (t + d) =? i) with true by lia. reflexivity.
-    + rewrite andb_true_r, negb_false_iff, ttl_eqb_eq in Hk. inversion Hk; subst.
-      cbn. unfold high_or. rewrite !N.eqb_refl. reflexivity.
-    + rewrite andb_true_r, negb_false_iff, ttl_eqb_eq in Hk. discriminate.
-    + rewrite andb_true_r, negb_false_iff, ttl_eqb_eq in Hk. discriminate.
+  - destruct st as [i|t' d'|i|i]; cbn in *; unfold high_or, sat_add8, tq_high.
+    + replace (N.min 255 (t + d) =? i) with true by lia. reflexivity.
+    + replace (N.min 255 (t + d) =? N.min 255 (t' + d')) with true by lia. reflexivity.
+    + replace (N.min 255 (t + d) =? i) with true by lia. reflexivity.
+    + replace (t <=? i) with true by lia. reflexivity.
 Qed.
 
 Lemma rem_is_zero w n : 0 < n -> option_eqb N.eqb (checked_rem w n) (Some 0) = (w mod n =? 0).
@@ -297,16 +297,15 @@ Proof.
 Qed.
 
 Theorem tcp_instance_zero s o :
-  ttl_u8 (t_ittl s) -> tcp_instance s o -> known_tcp s o = false ->
+  ttl_u8 (t_ittl s) -> tcp_instance s o ->
   tcp_distance s o = Some 0 /\ tcp_score 0 = 100.
 Proof.
-  intros Hu [H0 H1 H2 H3 H4 H5 H6 H7 H8] Hk. split; [|reflexivity].
-  unfold known_tcp, ttl_form_gap in Hk. rename Hk into Hk1.
+  intros Hu [H0 H1 H2 H3 H4 H5 H6 H7 H8]. split; [|reflexivity].
   rewrite tcp_distance_sum.
   replace (tcp_decisive_mismatch_b s o) with false.
   2:{ symmetry. apply not_true_iff_false. rewrite tcp_decisive_mismatch_b_iff.
       intros [X|[X|[X|X]]]; contradiction. }
-  rewrite (ttl_instance_zero _ _ Hu H1 Hk1), (win_instance_zero _ _ _ H4). cbn [obind].
+  rewrite (ttl_instance_zero _ _ Hu H1), (win_instance_zero _ _ _ H4). cbn [obind].
   unfold c_olen, c_mss, c_wscale. rewrite H2, N.eqb_refl.
   rewrite (proj2 (optfield_inst_b_iff _ _) H3), (proj2 (optfield_inst_b_iff _ _) H5). reflexivity.
 Qed.
@@ -321,7 +320,6 @@ Section SingleField.
   Variables (s o : tcp_sig).
   Hypothesis Hu : ttl_u8 (t_ittl s).
   Hypothesis Hi : tcp_instance s o.
-  Hypothesis Hk : known_tcp s o = false.
 
   Let Hnd : forall o', t_version o' = t_version o -> t_olayout o' = t_olayout o -> t_quirks o' = t_quirks o ->
                        t_pclass o' = t_pclass o -> tcp_decisive_mismatch_b s o' = false.
@@ -329,10 +327,8 @@ Section SingleField.
     intros o' E0 E1 E2 E3. apply not_true_iff_false. rewrite tcp_decisive_mismatch_b_iff.
     destruct Hi as [H0 _ _ _ _ _ H6 H7 H8]. unfold tcp_decisive_mismatch. rewrite E0, E1, E2, E3. tauto.
   Qed.
-  Let Hk1 : (negb (ttl_eqb (t_ittl o) (t_ittl s)) && match t_ittl s with TtlValue _ => false | _ => true end) = false.
-  Proof. exact Hk. Qed.
   Let Zt : distance_ttl (t_ittl o) (t_ittl s) = Some 0.
-  Proof. apply ttl_instance_zero; [exact Hu | apply Hi | exact Hk1]. Qed.
+  Proof. apply ttl_instance_zero; [exact Hu | apply Hi]. Qed.
   Let Zw : distance_window_size (t_wsize o) (t_wsize s) (t_mss o) = Some 0.
   Proof. apply win_instance_zero. apply Hi. Qed.
   Let Zolen : c_olen s o = 0.
@@ -407,11 +403,25 @@ Proof.
 Qed.
 Lemma ttl_same_form_exact st ot :
   match st, ot with
-  | TtlDistance _ _, TtlDistance _ _ | TtlGuess _, TtlGuess _ | TtlBad _, TtlBad _ | TtlValue _, TtlValue _ => True
+  | TtlGuess _, TtlGuess _ | TtlBad _, TtlBad _ | TtlValue _, TtlValue _ => True
   | _, _ => False end ->
   distance_ttl ot st = Some (if ttl_eqb ot st then 0 else pen_ttl).
 Proof.
   destruct st, ot; intros H; try contradiction; cbn; unfold high_or, tq_low, tq_high, pen_ttl; reflexivity.
+Qed.
+(* hop-count TTLs: against `t+d` and `i+?` signatures the initial TTLs are compared, against `i-` the observed TTL
+   must not exceed i (else rejected) *)
+Lemma ttl_distance_forms t d :
+  t + d <= 255 ->
+  (forall t' d', t' + d' <= 255 ->
+     distance_ttl (TtlDistance t d) (TtlDistance t' d') = Some (if t + d =? t' + d' then 0 else pen_ttl))
+  /\ (forall i, distance_ttl (TtlDistance t d) (TtlGuess i) = Some (if t + d =? i then 0 else pen_ttl))
+  /\ (forall i, distance_ttl (TtlDistance t d) (TtlBad i) = if t <=? i then Some 0 else None)
+  /\ (forall i, distance_ttl (TtlValue t) (TtlBad i) = if t <=? i then Some 0 else None).
+Proof.
+  intros H. repeat split; intros; cbn; unfold high_or, sat_add8, tq_low, tq_high, pen_ttl; try reflexivity.
+  - replace (N.min 255 (t + d)) with (t + d) by lia. replace (N.min 255 (t' + d')) with (t' + d') by lia. reflexivity.
+  - replace (N.min 255 (t + d)) with (t + d) by lia. reflexivity.
 Qed.
 Lemma win_component_values ow sw m :
   distance_window_size ow sw m = None \/ distance_window_size ow sw m = Some 0 \/ distance_window_size ow sw m = Some pen_wsize.
@@ -673,13 +683,14 @@ Definition w_tcp (t : ttl) (w : window_size) : tcp_sig :=
   {| t_version := IpV4; t_ittl := t; t_olen := 0; t_mss := Some 1460; t_wsize := w; t_wscale := Some 7;
      t_olayout := [OMss; OSok; OTS; ONop; OWs]; t_quirks := [QDf; QNonZeroID]; t_pclass := PZero |}.
 
-(* K1: signature `64-` (p0f: random TTLs up to 64), observed TTL 54 at 10 hops: rejected *)
-Lemma Known_ttl_form_gap_refuted :
-  exists s o, ttl_u8 (t_ittl s) /\ tcp_instance s o /\ ttl_form_gap s o = true /\ tcp_distance s o <> Some 0.
+(* former K1 witnesses (fix c12ttl): `64-`, `64+?`, `60+4` against observed TTL 54 at 10 hops: now distance 0 *)
+Lemma Known_ttl_form_gap_former_witness_agrees :
+  Forall (fun st => tcp_instance (w_tcp st (WMss 4)) (w_tcp (TtlDistance 54 10) (WMss 4))
+                    /\ tcp_distance (w_tcp st (WMss 4)) (w_tcp (TtlDistance 54 10) (WMss 4)) = Some 0)
+         [TtlBad 64; TtlGuess 64; TtlDistance 60 4].
 Proof.
-  exists (w_tcp (TtlBad 64) (WMss 4)), (w_tcp (TtlDistance 54 10) (WMss 4)).
-  split; [cbn; lia|]. split; [apply tcp_instance_b_iff; vm_compute; reflexivity|].
-  split; [vm_compute; reflexivity | vm_compute; discriminate].
+  repeat (apply Forall_cons; [split; [apply tcp_instance_b_iff; vm_compute; reflexivity | vm_compute; reflexivity]|]).
+  apply Forall_nil.
 Qed.
 Definition w_hdr (opt : bool) (n : bytes) (v : option bytes) : header := {| h_optional := opt; h_name := n; h_value := v |}.
 (* K3: token `curl`, observed User-Agent software `curl/7.88`: penalty 3 (quality 0.8) instead of 0 *)
@@ -715,7 +726,7 @@ Example tcp_instance_zero_ex :
               t_olayout := [OMss; OSok; OTS; ONop; OWs]; t_quirks := [QDf; QNonZeroID]; t_pclass := PAnySize |} in
   let o := {| t_version := IpV6; t_ittl := TtlDistance 54 10; t_olen := 0; t_mss := Some 1460; t_wsize := WValue 5840; t_wscale := Some 7;
               t_olayout := [OMss; OSok; OTS; ONop; OWs]; t_quirks := [QDf; QNonZeroID]; t_pclass := PNonZero |} in
-  ttl_u8 (t_ittl s) /\ tcp_instance s o /\ known_tcp s o = false /\ tcp_distance s o = Some 0.
+  ttl_u8 (t_ittl s) /\ tcp_instance s o /\ tcp_distance s o = Some 0.
 Proof.
   cbn zeta. split; [cbn; lia|]. split; [apply tcp_instance_b_iff; vm_compute; reflexivity|].
   split; vm_compute; reflexivity.
@@ -734,7 +745,7 @@ Qed.
 
 (* ------------------------------------------------------------------ bundles used by Props/C12.v *)
 Lemma tcp_single_field s o :
-  ttl_u8 (t_ittl s) -> tcp_instance s o -> known_tcp s o = false ->
+  ttl_u8 (t_ittl s) -> tcp_instance s o ->
   (forall v, tcp_distance s (set_olen o v) = Some (if v =? t_olen s then 0 else pen_olen))
   /\ (forall v, win_literal s o ->
                 tcp_distance s (set_mss o v) = Some (if optfield_inst_b (t_mss s) v then 0 else pen_mss))
@@ -742,7 +753,7 @@ Lemma tcp_single_field s o :
   /\ (forall v, tcp_distance s (set_ittl o v) = distance_ttl v (t_ittl s))
   /\ (forall v, tcp_distance s (set_wsize o v) = distance_window_size v (t_wsize s) (t_mss o)).
 Proof.
-  intros Hu Hi Hk. repeat split; intros.
+  intros Hu Hi. repeat split; intros.
   - now apply single_olen.
   - now apply single_mss.
   - now apply single_wscale.
@@ -833,32 +844,27 @@ Qed.
 
 (* ------------------------------------------------------------------ one field off, stated on the observation *)
 Lemma ttl_admit_zero s o :
-  ttl_u8 (t_ittl s) -> known_tcp s o = false -> ttl_inst_b (t_ittl s) (t_ittl o) = true ->
+  ttl_u8 (t_ittl s) -> ttl_inst_b (t_ittl s) (t_ittl o) = true ->
   distance_ttl (t_ittl o) (t_ittl s) = Some 0.
-Proof.
-  intros Hu Hk Ha. unfold known_tcp, ttl_form_gap in Hk.
-  apply ttl_instance_zero; [exact Hu | now apply ttl_inst_b_iff | exact Hk].
-Qed.
+Proof. intros Hu Ha. apply ttl_instance_zero; [exact Hu | now apply ttl_inst_b_iff]. Qed.
 Lemma win_admit_zero s o :
-  known_tcp s o = false -> win_inst_b (t_wsize s) (t_wsize o) (t_mss o) = true ->
+  win_inst_b (t_wsize s) (t_wsize o) (t_mss o) = true ->
   distance_window_size (t_wsize o) (t_wsize s) (t_mss o) = Some 0.
-Proof.
-  intros _ Ha. apply win_instance_zero. now apply win_inst_b_iff.
-Qed.
+Proof. intros Ha. apply win_instance_zero. now apply win_inst_b_iff. Qed.
 
 Theorem tcp_single_field_off_exact f s o :
-  ttl_u8 (t_ittl s) -> known_tcp s o = false ->
+  ttl_u8 (t_ittl s) ->
   single_field_off f s o = true -> field_differs_comparably f s o = true ->
   tcp_distance s o = Some (field_penalty f).
 Proof.
-  intros Hu Hk Hoff Hcmp. unfold single_field_off in Hoff.
+  intros Hu Hoff Hcmp. unfold single_field_off in Hoff.
   rewrite !andb_true_iff, !negb_true_iff in Hoff. destruct Hoff as [[Hdec Hnot] Hall].
   cbn [forallb all_tcp_fields] in Hall. rewrite !andb_true_iff in Hall.
   destruct Hall as (A1 & A2 & A3 & A4 & A5 & _).
   rewrite tcp_distance_sum, Hdec. unfold c_olen, c_mss, c_wscale.
   destruct f; cbn [tcp_field_eqb orb field_admits field_differs_comparably] in *.
   - (* ittl *)
-    rewrite (win_admit_zero s o Hk A4), A2, A3, A5.
+    rewrite (win_admit_zero s o A4), A2, A3, A5.
     assert (E : distance_ttl (t_ittl o) (t_ittl s) = Some pen_ttl).
     { destruct (t_ittl s) as [i| | |]; try discriminate.
       destruct (t_ittl o) as [a|t d|a|a]; try discriminate; cbn; unfold high_or, sat_add8, tq_low, tq_high, pen_ttl.
@@ -868,11 +874,11 @@ Proof.
       - rewrite negb_true_iff in Hcmp. rewrite Hcmp. reflexivity. }
     rewrite E. reflexivity.
   - (* olen *)
-    rewrite (ttl_admit_zero s o Hu Hk A1), (win_admit_zero s o Hk A4), Hnot, A3, A5. reflexivity.
+    rewrite (ttl_admit_zero s o Hu A1), (win_admit_zero s o A4), Hnot, A3, A5. reflexivity.
   - (* mss *)
-    rewrite (ttl_admit_zero s o Hu Hk A1), (win_admit_zero s o Hk A4), Hnot, A2, A5. reflexivity.
+    rewrite (ttl_admit_zero s o Hu A1), (win_admit_zero s o A4), Hnot, A2, A5. reflexivity.
   - (* wsize *)
-    rewrite (ttl_admit_zero s o Hu Hk A1), A2, A3, A5.
+    rewrite (ttl_admit_zero s o Hu A1), A2, A3, A5.
     assert (E : distance_window_size (t_wsize o) (t_wsize s) (t_mss o) = Some pen_wsize).
     { unfold win_inst_b in Hnot. apply orb_false_elim in Hnot. destruct Hnot as [Hne Hraw].
       destruct (t_wsize s) as [k|k|w|n|], (t_wsize o) as [k'|k'|w'|n'|]; try discriminate;
@@ -881,7 +887,7 @@ Proof.
       - rewrite win_raw_vs_mod. rewrite Hraw. reflexivity. }
     rewrite E. reflexivity.
   - (* wscale *)
-    rewrite (ttl_admit_zero s o Hu Hk A1), (win_admit_zero s o Hk A4), Hnot, A2, A3. reflexivity.
+    rewrite (ttl_admit_zero s o Hu A1), (win_admit_zero s o A4), Hnot, A2, A3. reflexivity.
 Qed.
 
 (* software string: not containing the token costs exactly 3, unless the token contains it (K3, other direction) *)
@@ -911,7 +917,7 @@ Qed.
 Example tcp_single_field_off_ex :
   let s := w_tcp (TtlValue 64) (WMss 4) in
   let o := set_wscale (w_tcp (TtlDistance 54 10) (WValue 5840)) (Some 8) in
-  ttl_u8 (t_ittl s) /\ known_tcp s o = false /\ single_field_off FWscale s o = true
+  ttl_u8 (t_ittl s) /\ single_field_off FWscale s o = true
   /\ field_differs_comparably FWscale s o = true /\ tcp_distance s o = Some 1.
 Proof. cbn zeta. split; [cbn; lia|]. repeat split; vm_compute; reflexivity. Qed.
 Example http_expsw_off_ex :
